@@ -146,22 +146,35 @@ class Interp:
             stmts = [n for n in ast.walk(fnode) if isinstance(n, ast.stmt) and n is not fnode]
             stmts.sort(key=lambda n: (n.lineno, n.col_offset))
             seen, keys = {}, []
+            # local variable names are written `_` in the key: renaming a local (consistently or not) keeps every id, and a statement that
+            # merely uses another local keeps ITS ids - so its obligations are compared with the baseline instead of counting as new ones
+            local = {a.arg for a in ast.walk(fnode) if isinstance(a, ast.arg)} | \
+                    {x.id for x in ast.walk(fnode) if isinstance(x, ast.Name) and isinstance(x.ctx, (ast.Store, ast.Del))}
+            import copy as _copy
+
+            class _Anon(ast.NodeTransformer):
+                def visit_Name(self_, node):
+                    return ast.copy_location(ast.Name(id="_", ctx=node.ctx), node) if node.id in local else node
+
+            def unparse(node):
+                return ast.unparse(_Anon().visit(_copy.deepcopy(node)))
             for n in stmts:
-                if isinstance(n, (ast.If, ast.While)):
-                    text = type(n).__name__.lower() + " " + ast.unparse(n.test)
-                elif isinstance(n, ast.For):
-                    text = "for " + ast.unparse(n.target) + " in " + ast.unparse(n.iter)
-                elif isinstance(n, ast.With):
-                    text = "with " + ", ".join(ast.unparse(i) for i in n.items)
-                elif isinstance(n, ast.Try):
-                    text = "try"
-                elif isinstance(n, (ast.FunctionDef, ast.ClassDef)):
-                    text = "def " + n.name
-                else:
-                    text = ast.unparse(n)
+                def header(un):
+                    if isinstance(n, (ast.If, ast.While)):
+                        return type(n).__name__.lower() + " " + un(n.test)
+                    if isinstance(n, ast.For):
+                        return "for " + un(n.target) + " in " + un(n.iter)
+                    if isinstance(n, ast.With):
+                        return "with " + ", ".join(un(i) for i in n.items)
+                    if isinstance(n, ast.Try):
+                        return "try"
+                    if isinstance(n, (ast.FunctionDef, ast.ClassDef)):
+                        return "def " + n.name
+                    return un(n)
+                text = header(unparse)                    # identity: locals anonymised
                 k = seen.get(text, 0)
                 seen[text] = k + 1
-                slug = re.sub(r"[^A-Za-z0-9]+", "_", text).strip("_")[:28]
+                slug = re.sub(r"[^A-Za-z0-9]+", "_", header(ast.unparse)).strip("_")[:28]      # readable only (not part of the identity)
                 key = "%s~%s%s" % (slug, hashlib.sha1(text.encode()).hexdigest()[:5], (".%d" % k) if k else "")
                 last = n.end_lineno if not isinstance(n, (ast.If, ast.While, ast.For, ast.With, ast.Try, ast.FunctionDef,
                                                           ast.ClassDef)) else None
